@@ -109,6 +109,8 @@ class RunDirector(Director):
         ov = self.sched_overrides.get(str(op_id))
         self.op_policy = ov if ov else self.sched_knob.get("policy", "none")
         self.explicit = self.sched_choices.get(str(op_id))
+        if self.explicit is None and self.sched_choices:
+            self.explicit = []  # an explicit schedule is in force: no entry = nobody is pre-empted
         self.explicit_i = 0
         if self.op_policy == "pct":
             d = self.sched_knob.get("d", 2)
@@ -198,9 +200,10 @@ class RunDirector(Director):
             if self.explicit_i < len(self.explicit):
                 name = self.explicit[self.explicit_i]
                 self.explicit_i += 1
-                for a in runnable:
-                    if a.name == name:
-                        return a
+                if name != "=":
+                    for a in runnable:
+                        if a.name == name:
+                            return a
             return current if current in runnable else runnable[0]
         pol = self.op_policy
         if pol == "none" or pol == "stay":
@@ -464,8 +467,8 @@ class World:
     def snapshot_dir(self):
         """name -> (kind, size, atime, mtime, bytes) for everything directly or indirectly in the cache dir."""
         out = {}
-        for p, kind, size, at, mt, data in self.fs.h_tree(CACHE_DIR):
-            out[p] = (kind, size, at, mt, data)
+        for p, kind, size, at, mt, data, ino, gen in self.fs.h_tree(CACHE_DIR):
+            out[p] = (kind, size, at, mt, data, ino, gen)
         return out
 
     def busy_workers(self):
@@ -658,6 +661,12 @@ class World:
             raise
         except Exception as e:  # the code under test raised to its caller
             obs.exc = e
+        if self.sched.crashed and not crashed:
+            # the crash exception was replaced or swallowed on its way up (e.g. by an error raised from a
+            # close() during unwinding): the process is dead all the same
+            crashed = True
+            obs.exc = None
+            obs.result = None
         if crashed:
             obs.crashed = True
             self.stats["crashes"] += 1
@@ -795,7 +804,7 @@ class World:
         if self.sched.log is not None:
             for ev in self.sched.log:
                 h.update(repr(ev).encode())
-        for p, kind, size, at, mt, data in self.fs.h_tree("/SIMFS"):
+        for p, kind, size, at, mt, data, _ino, _gen in self.fs.h_tree("/SIMFS"):
             h.update(("%s|%s|%d|%d|%d|" % (p, kind, size, at, mt)).encode())
             h.update(hashlib.md5(data).digest())
         h.update(repr(self.violation[:2] if self.violation else None).encode())
